@@ -232,6 +232,10 @@ pub struct CaSpec {
     /// Offsets in seconds relative to now.
     pub cert_not_after: i64,
     pub mft_number: u64,
+    /// Where the manifest (and CRL) numbers live: 0 = as given, 1 = moved
+    /// up by 2^64 - 2 (so that 1, 2, 3 straddle the 64-bit boundary), 2 =
+    /// moved up by 2^136 (numbers of 18 octets; 20 are allowed).
+    pub mft_number_base: u8,
     pub mft_this_update: i64,
     pub mft_next_update: i64,
     pub mft_ee_not_after: i64,
@@ -239,6 +243,20 @@ pub struct CaSpec {
     /// Only issue the certificate, do not build a publication point (the
     /// certificate points at a point built elsewhere).
     pub skip_point: bool,
+}
+
+/// The manifest number `n` moved to the given base (see `CaSpec::mft_number_base`).
+pub fn big_number(n: u64, base: u8) -> Serial {
+    let mut bytes = [0u8; 20];
+    match base {
+        0 => bytes[12..].copy_from_slice(&n.to_be_bytes()),
+        1 => {
+            let v = (u64::MAX as u128 - 1) + n as u128;
+            bytes[4..].copy_from_slice(&v.to_be_bytes());
+        }
+        _ => { bytes[2] = 1; bytes[12..].copy_from_slice(&n.to_be_bytes()); }
+    }
+    Serial::from_array(bytes).expect("manifest number")
 }
 
 pub const YEAR: i64 = 365 * 86400;
@@ -255,7 +273,7 @@ impl CaSpec {
             objs: Vec::new(), children: Vec::new(),
             cert_not_after: YEAR,
             extra_revoked: Vec::new(),
-            mft_number: 1, mft_this_update: -3600, mft_next_update: DAY,
+            mft_number: 1, mft_number_base: 0, mft_this_update: -3600, mft_next_update: DAY,
             mft_ee_not_after: 7 * DAY, crl_next_update: DAY,
             skip_point: false,
         }
@@ -669,7 +687,7 @@ impl<'a> Builder<'a> {
             Default::default(), pubkey.to_subject_name(),
             t(self.now, -2 * 3600), t(self.now, crl_next),
             revoked.iter().map(|s| CrlEntry::new(Serial::from(*s), t(self.now, -3600))).collect::<Vec<_>>(),
-            pubkey.key_identifier(), Serial::from(ca.mft_number),
+            pubkey.key_identifier(), big_number(ca.mft_number, ca.mft_number_base),
         );
         let mut crl_bytes = crl.into_crl(&self.gen.signer, key).expect("sign CRL")
             .to_captured().into_bytes().to_vec();
@@ -705,7 +723,7 @@ impl<'a> Builder<'a> {
             FileAndHash::new(Bytes::from(name.clone().into_bytes()), Bytes::from(sha256(content)))
         }).collect();
         let content = ManifestContent::new(
-            Serial::from(ca.mft_number), t(self.now, this_up), t(self.now, next_up),
+            big_number(ca.mft_number, ca.mft_number_base), t(self.now, this_up), t(self.now, next_up),
             DigestAlgorithm::default(), entries.iter()
         );
         let mft = content.into_manifest(
